@@ -22,7 +22,7 @@ KINDS = ("noise", "tones", "trend", "int", "explicit", "const")
 # a second record that is almost the first one: the same samples after a text export with 6 digits, a float32 round trip, a
 # channel with a gain mismatch of a few ppm -- or an equal copy (eps = 0).  r_xy then differs from r_xx by eps relative,
 # far above the comparison tolerance and far below what an independent draw would ever produce.
-near_y = st.fixed_dictionaries({"eps": st.sampled_from([0.0, 1e-6, 3e-6, 1e-7, 1e-5, "f32", "6g"]), "seed": gen.seeds})
+near_y = st.fixed_dictionaries({"eps": st.sampled_from([0.0, 1e-6, 3e-6, 1e-7, 1e-5, "f32", "6g", "same"]), "seed": gen.seeds})
 
 
 def _near(x, d):
@@ -39,6 +39,8 @@ def _near(x, d):
 
 def _second(case, x):
     if case.get("y_near"):
+        if case["y_near"]["eps"] == "same":
+            return x                  # the caller passes one and the same array twice
         return _near(x, case["y_near"])
     return gen.realise(case["y"]) if case["y"] else None
 
